@@ -7,7 +7,7 @@ META = {
     "driver_id": "Edit",
     "coq_targets": ["Props/C03.vo", "Extract/Extract_Edit.vo"],
     "technique": 'Coq invariant / refinement proofs over the executable edit-machine model + step-by-step differential correspondence of the extracted model with the implementation + direct oracle on the implementation',
-    "level_text": '(to be completed with the list of theorems proved in Props/C03.v)',
+    "level_text": 'Theorems (closed under the global context) about the edit-machine model on every state satisfying W_dict and W_forest: C03_delete_edge and C03_add_edge (every accepted UserDeleteEdge / UserAddEdge, all branches and forced variants, returns a forward-in-time binary forest; exactly the new edge is added and only other in-edges of the target are removed, none without force), C03_swap and C03_swap_accepted_iff (UserSwapPredecessors: forest kept, exactly the two parents exchanged, accepted iff its own checks pass), C03_add_edge_refusals (unknown endpoint, non-forward edge, third child: InvalidActionError; merge without force: forceable InvalidActionError; state untouched), C03_update_track_ids (the relabel walk terminates on every forest and keeps the graph). PARTIAL: UserAddNode, UserDeleteNode, paint and undo/redo are not yet covered by theorems; for them the check rests on the step-by-step differential correspondence of the extracted model with the implementation and the direct forest oracle (in/out degrees, time order, forced-minimality) after every operation.',
     "level_note": 'Trusted: Coq kernel, extraction (ExtrOcamlBasic only), OCaml driver drv_Edit.ml, Python harness and oracles. Modelled, not verified: networkx DiGraph dict semantics, numpy indexing, skimage regionprops (symbolic: value = function of key, mask, spacing), psygnal. The theorems are about the hand-written model coq/Model/Edit.v; the tie to /repo is the step-by-step differential execution of the extracted model against the implementation on every run.',
     "design_ref": "DESIGN.md section 9 (C03)",
     "assumptions": ['the caller does not pass a lineage id to UserAddNode (outside its documented domain)', 'track_id and lineage_id features stay enabled during editing sessions', 'labels/ids are positive; times are frame indices within the array'],
